@@ -109,11 +109,13 @@ package otto
 //@ func toUint32
 //@   props C05
 //@   requires jsValue(value)
+//@   pure_if value.kind != valueObject
 //@   ensures isGoNumber(value) ==> result == u32of(value)
 
 //@ func toUint16
 //@   props C05
 //@   requires jsValue(value)
+//@   pure_if value.kind != valueObject
 //@   ensures isGoNumber(value) ==> result == u16of(value)
 
 //@ func toIntegerFloat
@@ -1378,6 +1380,11 @@ package otto
 //@   props C09
 //@   safety C02 C09
 //@   requires str != nil
+//@   calls otto.stringObjecter.Length(str) as n when index >= 0
+//@   calls otto.stringObjecter.At(str, _) as c whenret 0 <= index && index < n
+//@   at_call otto.stringObjecter.At : called(n) && 0 <= arg1 && arg1 < n && arg1 == index
+//@   ensures index < 0 ==> result == 65533
+//@   ensures index >= 0 ==> called(n) && (index < n ==> called(c) && result == c) && (index >= n ==> result == 65533)
 //@ func builtinStringCharAt
 //@   props C09
 //@   calls checkObjectCoercible(call.runtime, call.This)
@@ -1883,6 +1890,7 @@ package otto
 //@   stable call.ArgumentList
 //@   invariant@1 0 <= index && index <= len(input)
 //@   invariant@2 value >= 0.0
+//@   at_call strings.Trim : arg1 == builtinStringTrimWhitespace
 //@   at_call float64Value : negative ==> !(arg0 > 0.0)
 //@   at_call float64Value : !negative ==> !(arg0 < 0.0)
 
@@ -2365,6 +2373,9 @@ package otto
 //@   requires wfCall(call) && argsOK(call.ArgumentList) && call.runtime != nil
 //@   stable call.ArgumentList
 //@   abstract_callee execRegExp, (*object).call
+//@   at_call strings.Trim : arg1 == builtinStringTrimWhitespace && (call.This.kind == valueString && is(call.This.value, string) ==> arg0 == call.This.value.(string))
+//@   calls strings.Trim(_, _) as t
+//@   ensures called(t) && result.kind == valueString && is(result.value, string) && result.value.(string) == t
 //@   calls checkObjectCoercible(call.runtime, call.This)
 //@ func builtinStringTrimLeft
 //@   props C09
@@ -2372,6 +2383,9 @@ package otto
 //@   requires wfCall(call) && argsOK(call.ArgumentList) && call.runtime != nil
 //@   stable call.ArgumentList
 //@   abstract_callee execRegExp, (*object).call
+//@   at_call strings.TrimLeft : arg1 == builtinStringTrimWhitespace && (call.This.kind == valueString && is(call.This.value, string) ==> arg0 == call.This.value.(string))
+//@   calls strings.TrimLeft(_, _) as t
+//@   ensures called(t) && result.kind == valueString && is(result.value, string) && result.value.(string) == t
 //@   calls checkObjectCoercible(call.runtime, call.This)
 //@ func builtinStringTrimRight
 //@   props C09
@@ -2379,6 +2393,9 @@ package otto
 //@   requires wfCall(call) && argsOK(call.ArgumentList) && call.runtime != nil
 //@   stable call.ArgumentList
 //@   abstract_callee execRegExp, (*object).call
+//@   at_call strings.TrimRight : arg1 == builtinStringTrimWhitespace && (call.This.kind == valueString && is(call.This.value, string) ==> arg0 == call.This.value.(string))
+//@   calls strings.TrimRight(_, _) as t
+//@   ensures called(t) && result.kind == valueString && is(result.value, string) && result.value.(string) == t
 //@   calls checkObjectCoercible(call.runtime, call.This)
 //@ func builtinStringLocaleCompare
 //@   props C09
@@ -2840,3 +2857,550 @@ package otto
 //@   props C13
 //@   safety C02 C13
 //@   invariant@1 0 <= index && length == len(input)
+
+// the ASCII representation: code unit i is byte i
+//@ func (stringASCII).Length
+//@   props C09
+//@   ensures result == len(str)
+//@   nothrow
+//@ func (stringASCII).At
+//@   props C09
+//@   safety C02 C09
+//@   requires 0 <= at && at < len(str)
+//@   ensures result == int32(str[at])
+
+// 15.5.4.20 trim: the characters stripped are exactly WhiteSpace (7.2: TAB VT FF SP NBSP BOM
+// and category Zs) and LineTerminator (7.3: LF CR LS PS).
+//@ sanity[C09] builtinStringTrimWhitespace == "\u0009\u000A\u000B\u000C\u000D\u0020\u00A0\u1680\u180E\u2000\u2001\u2002\u2003\u2004\u2005\u2006\u2007\u2008\u2009\u200A\u2028\u2029\u202F\u205F\u3000\uFEFF"
+//@ func builtinStringTrimStart
+//@   props C09
+//@   requires wfCall(call) && argsOK(call.ArgumentList) && call.runtime != nil
+//@   calls builtinStringTrimLeft(call) as r
+//@   ensures called(r) && result == r
+//@ func builtinStringTrimEnd
+//@   props C09
+//@   requires wfCall(call) && argsOK(call.ArgumentList) && call.runtime != nil
+//@   calls builtinStringTrimRight(call) as r
+//@   ensures called(r) && result == r
+
+// 15.5.1.1 String(value): "" without arguments, ToString(value) otherwise.
+//@ func stringValueFromStringArgumentList
+//@   props C09
+//@   safety C02 C09
+//@   requires len(argumentList) > 0 ==> jsValue(argumentList[0])
+//@   ensures result.kind == valueString && is(result.value, string)
+//@   ensures len(argumentList) == 0 ==> result.value.(string) == ""
+//@   ensures len(argumentList) > 0 && old(argumentList[0].kind == valueString && is(argumentList[0].value, string)) ==> result.value.(string) == old(argumentList[0].value.(string))
+//@   ensures len(argumentList) > 0 && old(argumentList[0].kind == valueUndefined) ==> result.value.(string) == "undefined"
+//@ func builtinString
+//@   props C09
+//@   requires len(call.ArgumentList) > 0 ==> jsValue(call.ArgumentList[0])
+//@   calls stringValueFromStringArgumentList(call.ArgumentList) as r
+//@   ensures called(r) && result == r
+
+// 15.5.4.2/3 toString / valueOf: TypeError unless this is a String (object); 15.5.5.2: an
+// index property of a String object is {[[Value]]: the character, writable/enumerable/
+// configurable all false}; an own ordinary property takes precedence.
+//@ func builtinStringToString
+//@   props C09
+//@   requires call.runtime != nil
+//@   at_call (*FunctionCall).thisClassObject : arg1 == "String"
+//@   calls (*object).primitiveValue(_) as r
+//@   ensures called(r) && result == r
+//@ func builtinStringValueOf
+//@   props C09
+//@   requires call.runtime != nil
+//@   at_call (*FunctionCall).thisClassObject : arg1 == "String"
+//@   calls (*object).primitiveValue(_) as r
+//@   ensures called(r) && result == r
+//@ func stringGetOwnProperty
+//@   props C09 C07
+//@   requires obj != nil
+//@   assumes is(obj.value, stringASCII) || (is(obj.value, *stringWide) && obj.value.(*stringWide) != nil)
+//@   calls stringAt(_, _) as chr whenret result != nil && !old(has(obj.property, name))
+//@   at_call stringAt : !has(obj.property, name) && index >= 0 && arg1 == int(index)
+//@   ensures old(has(obj.property, name)) ==> result != nil && *result == old(obj.property[name])
+//@   ensures !old(has(obj.property, name)) && result != nil ==> fresh(result) && result.mode == 0 && is(result.value, Value) && result.value.(Value).kind == valueString && called(chr) && chr != 65533
+
+// 15.1.2.3 parseFloat strips the same StrWhiteSpaceChar set before scanning.
+//@ func builtinGlobalParseFloat
+//@   props C13 C06
+//@   requires wfCall(call) && argOK(call, 0)
+//@   stable call.ArgumentList
+//@   safety C02 C13
+//@   invariant@1 0 <= end && end <= len(input)
+//@   at_call strings.Trim : arg1 == builtinStringTrimWhitespace
+//@   ensures isGoNumber(result) && is(result.value, float64)
+
+// 15.5.3.2 String.fromCharCode: one code unit per argument, each ToUint16(argument).
+//@ func builtinStringFromCharCode
+//@   props C09
+//@   safety C02 C09
+//@   requires argsOK(call.ArgumentList) && (forall i int :: 0 <= i && i < len(call.ArgumentList) ==> isGoNumber(call.ArgumentList[i]))
+//@   stable call.ArgumentList
+//@   fold u16of
+//@   invariant@1 len(chrList) == len(call.ArgumentList) && fresh(chrList)
+//@   invariant@1 forall j int :: 0 <= j && j <= $i ==> chrList[j] == u16of(call.ArgumentList[j])
+//@   at_call string16Value : len(arg0) == len(call.ArgumentList) && (forall j int :: 0 <= j && j < len(arg0) ==> arg0[j] == u16of(call.ArgumentList[j]))
+
+// ---------------------------------------------------------------------------
+// object.go, global.go, type_*.go: object construction (8.6.2, 15.x.2.1, 15.x.5)
+// ---------------------------------------------------------------------------
+
+// A new object is extensible, has the given class, no properties and no prototype yet
+// (object.go newObject is a single allocation: taken inline by its callers).
+//@ func newObject
+//@   inline
+//@ func (*runtime).newBaseObject
+//@   inline
+//@ func (*runtime).newClassObject
+//@   inline
+//@ func (*runtime).newPrimitiveObject
+//@   props C06 C09
+//@   nothrow
+//@   pure
+//@   ensures result != nil && fresh(result) && result.class == class && result.objectClass == classObject && result.extensible && is(result.value, Value) && result.value.(Value) == value
+
+// 15.2.2.1: a new Object's [[Prototype]] is the original Object prototype object, its
+// [[Class]] is "Object".
+//@ func (*runtime).newObject
+//@   props C07 C14
+//@   requires rt != nil
+//@   nothrow
+//@   pure
+//@   ensures result != nil && fresh(result) && result.class == "Object" && result.prototype == rt.global.ObjectPrototype && result.extensible && result.objectClass == classObject && (forall k string :: !has(result.property, k))
+
+// 15.5.5: a String instance has [[Class]] "String", the string as [[PrimitiveValue]] and a
+// length property {value: number of code units, writable/enumerable/configurable: false};
+// 15.5.2.1: its [[Prototype]] is the original String prototype object.
+//@ func (*runtime).newStringObject
+//@   props C09 C14
+//@   nosafety
+//@   requires rt != nil && jsValue(value)
+//@   calls newStringObject(_) as str
+//@   calls otto.stringObjecter.Length(_) as n
+//@   at_call otto.stringObjecter.Length : called(str) && arg0 == str
+//@   at_call (*object).defineProperty : arg0.class == "String" && arg1 == "length" && arg3 == 0 && !arg4 && called(n) && arg2.kind == valueNumber && is(arg2.value, int) && arg2.value.(int) == n
+//@   ensures result != nil && result.objectClass == classString && called(str) && result.value == str
+//@ func (*runtime).newString
+//@   props C09 C14
+//@   nosafety
+//@   requires rt != nil && jsValue(value)
+//@   calls (*runtime).newStringObject(_, _) as o
+//@   at_call (*runtime).newStringObject : arg0 == rt && arg1 == value
+//@   ensures called(o) && result == o && result.prototype == rt.global.StringPrototype
+
+// 15.4.2.2 / 15.4.5.2: an Array instance has [[Class]] "Array" and a length property
+// {writable: true, enumerable: false, configurable: false}; its [[Prototype]] is the original
+// Array prototype object.
+//@ func (*runtime).newArrayObject
+//@   props C08 C14
+//@   nosafety
+//@   requires rt != nil
+//@   at_call (*object).defineProperty : arg0.class == "Array" && arg1 == "length" && arg3 == 0o100 && !arg4 && arg2.kind == valueNumber && is(arg2.value, uint32) && arg2.value.(uint32) == length
+//@   ensures result != nil && result.objectClass == classArray
+//@ func (*runtime).newArray
+//@   props C08 C14
+//@   nosafety
+//@   requires rt != nil
+//@   calls (*runtime).newArrayObject(_, _) as o
+//@   at_call (*runtime).newArrayObject : arg0 == rt && arg1 == length
+//@   ensures called(o) && result == o && result != nil && result.prototype == rt.global.ArrayPrototype
+
+// 15.6.2.1 / 15.7.2.1: Boolean and Number instances hold ToBoolean(value) / ToNumber(value)
+// as [[PrimitiveValue]]; their [[Prototype]] is the original Boolean / Number prototype.
+//@ func (*runtime).newBooleanObject
+//@   props C06 C14
+//@   nosafety
+//@   requires rt != nil && jsValue(value)
+//@   ensures result != nil && result.class == "Boolean" && is(result.value, Value) && result.value.(Value).kind == valueBoolean && is(result.value.(Value).value, bool)
+//@   ensures value.kind == valueBoolean ==> result.value.(Value).value.(bool) == value.value.(bool)
+//@   ensures value.kind == valueUndefined || value.kind == valueNull ==> !result.value.(Value).value.(bool)
+//@ func (*runtime).newBoolean
+//@   props C06 C14
+//@   nosafety
+//@   requires rt != nil && jsValue(value)
+//@   calls (*runtime).newBooleanObject(_, _) as o
+//@   at_call (*runtime).newBooleanObject : arg0 == rt && arg1 == value
+//@   ensures called(o) && result == o && result.prototype == rt.global.BooleanPrototype
+//@ func (*runtime).newNumberObject
+//@   props C06 C14
+//@   nosafety
+//@   requires rt != nil && jsValue(value)
+//@   ensures result != nil && result.class == "Number" && is(result.value, Value) && result.value.(Value).kind == valueNumber
+//@ func (*runtime).newNumber
+//@   props C06 C14
+//@   nosafety
+//@   requires rt != nil && jsValue(value)
+//@   calls (*runtime).newNumberObject(_, _) as o
+//@   at_call (*runtime).newNumberObject : arg0 == rt && arg1 == value
+//@   ensures called(o) && result == o && result.prototype == rt.global.NumberPrototype
+
+// ---------------------------------------------------------------------------
+// builtin_array.go: the mutator methods as sequences of [[Get]]/[[Put]]/[[Delete]] (C08)
+// ---------------------------------------------------------------------------
+
+// The internal methods the algorithms of 15.4.4 are written in; they run arbitrary script
+// (accessors) but cannot reach the activation record of the native function calling them.
+//@ func (*object).put
+//@   trusted
+//@   requires o != nil
+//@   preserves FunctionCall.runtime, FunctionCall.ArgumentList, FunctionCall.This, FunctionCall.thisObj, FunctionCall.eval, FunctionCall.Otto
+//@ func (*object).delete
+//@   trusted
+//@   requires o != nil
+//@   preserves FunctionCall.runtime, FunctionCall.ArgumentList, FunctionCall.This, FunctionCall.thisObj, FunctionCall.eval, FunctionCall.Otto
+//@ func (*object).hasProperty
+//@   trusted
+//@   requires o != nil
+//@   preserves FunctionCall.runtime, FunctionCall.ArgumentList, FunctionCall.This, FunctionCall.thisObj, FunctionCall.eval, FunctionCall.Otto
+
+// ToString(k) of an array index k: the decimal numeral, never the name "length".
+//@ func arrayIndexToString
+//@   props C08
+//@   logical
+//@   at_call strconv.FormatInt : arg0 == index && arg1 == 10
+//@   ensures len(result) > 0 && result != "length" && (result == "0" <==> index == 0) && decimalOf(result) == index
+
+// 15.4.4.7 push: n = ToUint32(length); every argument is put at ToString(n), n+1, ... in
+// order, with throw = true; length is then put as n + argument count, which is the result.
+//@ func builtinArrayPush
+//@   props C08
+//@   nosafety
+//@   fold u32of, numOf
+//@   requires wfCall(call) && argsOK(call.ArgumentList) && call.runtime != nil
+//@   stable call.ArgumentList
+//@   calls (*object).get(_, "length") as l0
+//@   invariant@1 len(itemList) <= len(old(call.ArgumentList))
+//@   invariant@1 itemList == old(call.ArgumentList)[len(old(call.ArgumentList))-len(itemList):]
+//@   invariant@1 index == index#init + int64(len(old(call.ArgumentList))-len(itemList))
+//@   invariant@1 called(l0) && (isGoNumber(l0) ==> index#init == int64(u32of(l0)))
+//@   at_call (*object).put : arg0 == thisObject && arg3
+//@   at_call (*object).put : arg1 != "length" ==> arg1 == arrayIndexToString(index) && len(itemList) > 0 && arg2 == old(call.ArgumentList)[len(old(call.ArgumentList))-len(itemList)]
+//@   at_call (*object).put : arg1 == "length" ==> arg2.kind == valueNumber && is(arg2.value, int64) && arg2.value.(int64) == index#init + int64(len(old(call.ArgumentList)))
+//@   ensures result.kind == valueNumber && is(result.value, int64) && called(l0) && (isGoNumber(l0) ==> result.value.(int64) == int64(u32of(l0)) + int64(len(old(call.ArgumentList))))
+
+//@ spec numValIs(v Value, n int64) bool = v.kind == valueNumber && ((is(v.value, int64) && v.value.(int64) == n) || (is(v.value, uint32) && int64(v.value.(uint32)) == n))
+
+// 15.4.4.6 pop: len = ToUint32(length); len = 0: length is put as 0, the result is undefined;
+// otherwise the element at ToString(len-1) is read, deleted (throw = true), length is put as
+// len-1 and the element is the result.
+//@ func builtinArrayPop
+//@   props C08
+//@   nosafety
+//@   fold u32of, numOf
+//@   requires wfCall(call) && argsOK(call.ArgumentList) && call.runtime != nil
+//@   stable call.ArgumentList
+//@   calls (*object).get(_, "length") as l0
+//@   at_call (*object).get : arg0 == thisObject && (arg1 != "length" ==> length > 0 && arg1 == arrayIndexToString(length - 1))
+//@   at_call (*object).delete : arg0 == thisObject && length > 0 && arg1 == arrayIndexToString(length - 1) && arg2
+//@   at_call (*object).put : arg0 == thisObject && arg1 == "length" && arg3 && numValIs(arg2, ite(length == 0, 0, length - 1)) && called(l0) && (isGoNumber(l0) ==> length == int64(u32of(l0)))
+//@   calls (*object).delete(_, _, _) whenret isGoNumber(l0) && u32of(l0) != 0
+//@   calls (*object).put(_, "length", _, _)
+//@   calls (*object).get(_, arrayIndexToString(int64(u32of(l0)) - 1)) as last whenret isGoNumber(l0) && u32of(l0) != 0
+//@   ensures called(l0) && (isGoNumber(l0) && u32of(l0) == 0 ==> result == Value{})
+//@   ensures isGoNumber(l0) && u32of(l0) != 0 ==> called(last) && result == last
+
+// 15.4.4.9 shift: len = ToUint32(length); len = 0: length is put as 0, result undefined.
+// Otherwise first = [[Get]]("0"); for k = 1 .. len-1: if [[HasProperty]](ToString(k)) then
+// [[Put]](ToString(k-1), [[Get]](ToString(k)), true) else [[Delete]](ToString(k-1), true);
+// then [[Delete]](ToString(len-1), true), length is put as len-1, first is the result.
+//@ func builtinArrayShift
+//@   props C08
+//@   nosafety
+//@   fold u32of, numOf
+//@   requires wfCall(call) && argsOK(call.ArgumentList) && call.runtime != nil
+//@   stable call.ArgumentList
+//@   calls (*object).get(_, "length") as l0
+//@   calls (*object).get(_, "0") as g0 whenret isGoNumber(l0) && u32of(l0) != 0
+//@   calls (*object).get(_, _) as g
+//@   calls (*object).hasProperty(_, _) as h whenret false
+//@   calls (*object).put(_, _, _, _) as p whenret false
+//@   calls (*object).delete(_, _, _) as d whenret false
+//@   invariant@1 1 <= index && index <= length && called(l0) && (isGoNumber(l0) ==> length == int64(u32of(l0))) && called(g0) && g0 == first && ncalls(p) + ncalls(d) == index - 1 && ncalls(h) == index - 1
+//@   at_call (*object).hasProperty : arg0 == thisObject && index < length && arg1 == arrayIndexToString(index)
+//@   at_call (*object).get : arg0 == thisObject && (arg1 == "length" || arg1 == "0" || (index < length && called(h) && h && arg1 == arrayIndexToString(index)))
+//@   at_call (*object).put : arg0 == thisObject && arg3
+//@   at_call (*object).put : arg1 == "length" ==> numValIs(arg2, ite(length == 0, 0, length - 1))
+//@   at_call (*object).put : arg1 != "length" ==> index < length && called(h) && h && arg1 == arrayIndexToString(index - 1) && called(g) && arg2 == g
+//@   at_call (*object).delete : arg0 == thisObject && arg2 && length > 0 && arg1 == arrayIndexToString(index - 1) && (index < length ==> called(h) && !h)
+//@   calls (*object).put(_, "length", _, _)
+//@   ensures called(l0) && (isGoNumber(l0) && u32of(l0) == 0 ==> result == Value{}) && (isGoNumber(l0) && u32of(l0) != 0 ==> result == g0 && ncalls(p) + ncalls(d) == int64(u32of(l0)) + 1 && ncalls(h) == int64(u32of(l0)) - 1)
+
+// 15.4.4.13 unshift: for k = len .. 1: from = ToString(k-1), to = ToString(k+argCount-1),
+// moved with [[HasProperty]]/[[Get]]/[[Put]] or [[Delete]] as in shift; then item j is put at
+// ToString(j); length is put as len+argCount, which is the result.
+//@ func builtinArrayUnshift
+//@   props C08
+//@   nosafety
+//@   fold u32of, numOf
+//@   requires wfCall(call) && argsOK(call.ArgumentList) && call.runtime != nil
+//@   stable call.ArgumentList
+//@   calls (*object).get(_, "length") as l0
+//@   calls (*object).get(_, _) as g
+//@   calls (*object).hasProperty(_, _) as h whenret false
+//@   calls (*object).put(_, _, _, _) as p whenret false
+//@   calls (*object).delete(_, _, _) as d whenret false
+//@   invariant@1 ncalls(p) + ncalls(d) == length - index && ncalls(h) == length - index && 0 <= index && index <= length && called(l0) && (isGoNumber(l0) ==> length == int64(u32of(l0))) && itemCount == int64(len(itemList)) && (isGoNumber(l0) ==> itemList == old(call.ArgumentList))
+//@   invariant@2 ncalls(p) + ncalls(d) == length + index#2 && ncalls(h) == length && index#1 == 0 && 0 <= index#2 && index#2 <= itemCount && called(l0) && (isGoNumber(l0) ==> length == int64(u32of(l0))) && itemCount == int64(len(itemList)) && (isGoNumber(l0) ==> itemList == old(call.ArgumentList))
+//@   at_call (*object).hasProperty : arg0 == thisObject && index > 0 && arg1 == arrayIndexToString(index - 1)
+//@   at_call (*object).get : arg0 == thisObject && (arg1 == "length" || (index > 0 && called(h) && h && arg1 == arrayIndexToString(index - 1)))
+//@   at_call (*object).delete : arg0 == thisObject && arg2 && index > 0 && called(h) && !h && arg1 == arrayIndexToString(index + itemCount - 1)
+//@   at_call (*object).put : arg0 == thisObject && arg3
+//@   at_call (*object).put : arg1 == "length" ==> numValIs(arg2, length + itemCount)
+//@   at_call (*object).put : arg1 != "length" && index#1 > 0 ==> called(h) && h && arg1 == arrayIndexToString(index#1 + itemCount - 1) && called(g) && arg2 == g
+//@   at_call (*object).put : arg1 != "length" && index#1 == 0 ==> 0 <= index#2 && index#2 < itemCount && arg1 == arrayIndexToString(index#2) && arg2 == itemList[index#2]
+//@   ensures called(l0) && (isGoNumber(l0) ==> numValIs(result, int64(u32of(l0)) + int64(len(old(call.ArgumentList)))) && ncalls(p) + ncalls(d) == int64(u32of(l0)) + int64(len(old(call.ArgumentList))) + 1 && ncalls(h) == int64(u32of(l0)))
+
+// 15.4.4.11 SortCompare(j, k): a missing element sorts after a present one, undefined after
+// any defined value; otherwise the comparison function is called with (x, y) and undefined
+// as this, or the two are compared as strings.
+//@ func sortCompare
+//@   props C08
+//@   nosafety
+//@   requires thisObject != nil
+//@   abstract_callee (*object).call
+//@   calls (*object).hasProperty(_, arrayIndexToString(int64(index0))) as hj
+//@   calls (*object).hasProperty(_, arrayIndexToString(int64(index1))) as hk
+//@   calls (*object).get(_, arrayIndexToString(int64(index0))) as x whenret false
+//@   calls (*object).get(_, arrayIndexToString(int64(index1))) as y whenret false
+//@   at_call (*object).hasProperty : arg0 == thisObject
+//@   at_call (*object).get : arg0 == thisObject && index0 != index1 ==> called(hj) && hj && called(hk) && hk
+//@   at_call (*object).call : arg0 == compare && arg1 == Value{} && len(arg2) == 2 && (index0 != index1 ==> arg2[0] == x && arg2[1] == y)
+//@   ensures index0 != index1 ==> (!hj && !hk ==> result == 0) && (!hj && hk ==> result == 1) && (hj && !hk ==> result == -1)
+//@   ensures index0 != index1 && hj && hk ==> called(x) && called(y) && (x.kind == valueUndefined && y.kind == valueUndefined ==> result == 0) && (x.kind == valueUndefined && y.kind != valueUndefined ==> result == 1) && (x.kind != valueUndefined && y.kind == valueUndefined ==> result == -1)
+
+// The exchange step of the sort: elements j and k trade places, a missing element stays
+// missing on the other side ([[Delete]] there, [[Put]] here), all with throw = true.
+//@ func arraySortSwap
+//@   props C08
+//@   nosafety
+//@   requires thisObject != nil
+//@   calls (*object).hasProperty(_, arrayIndexToString(int64(index0))) as hj
+//@   calls (*object).hasProperty(_, arrayIndexToString(int64(index1))) as hk
+//@   calls (*object).get(_, arrayIndexToString(int64(index0))) as vj whenret false
+//@   calls (*object).get(_, arrayIndexToString(int64(index1))) as vk whenret false
+//@   calls (*object).put(_, _, _, _) as p whenret false
+//@   calls (*object).delete(_, _, _) as d whenret false
+//@   at_call (*object).hasProperty : arg0 == thisObject
+//@   at_call (*object).get : arg0 == thisObject && (index0 != index1 ==> (arg1 == arrayIndexToString(int64(index0)) && hj) || (arg1 == arrayIndexToString(int64(index1)) && hk))
+//@   at_call (*object).put : arg0 == thisObject && arg3 && (index0 != index1 ==> (arg1 == arrayIndexToString(int64(index0)) && hk && called(vk) && arg2 == vk) || (arg1 == arrayIndexToString(int64(index1)) && hj && called(vj) && arg2 == vj))
+//@   at_call (*object).delete : arg0 == thisObject && arg2 && (index0 != index1 ==> (arg1 == arrayIndexToString(int64(index0)) && hj && !hk) || (arg1 == arrayIndexToString(int64(index1)) && hk && !hj))
+//@   ensures index0 != index1 ==> (hj && hk ==> ncalls(p) == 2 && ncalls(d) == 0) && (hj != hk ==> ncalls(p) == 1 && ncalls(d) == 1) && (!hj && !hk ==> ncalls(p) == 0 && ncalls(d) == 0)
+
+// 15.4.4.8 reverse: for lower = 0 .. floor(len/2)-1, upper = len-lower-1: both present: the two
+// values trade places; only one present: it moves to the other index and its old index is
+// deleted; none present: nothing happens.  All [[Put]]/[[Delete]] with throw = true.
+//@ func builtinArrayReverse
+//@   props C08
+//@   nosafety
+//@   fold u32of, numOf
+//@   requires wfCall(call) && argsOK(call.ArgumentList) && call.runtime != nil
+//@   stable call.ArgumentList
+//@   calls (*object).get(_, "length") as l0
+//@   calls (*object).get(_, arrayIndexToString(lower.index)) as vl whenret false
+//@   calls (*object).get(_, arrayIndexToString(length - lower.index - 1)) as vu whenret false
+//@   calls (*object).delete(_, arrayIndexToString(lower.index), _) as dl whenret false
+//@   calls (*object).delete(_, arrayIndexToString(length - lower.index - 1), _) as du whenret false
+//@   invariant@1 0 <= lower.index && lower.index <= middle && middle + middle <= length && length <= middle + middle + 1 && 0 <= length && length <= 4294967295 && called(l0) && (isGoNumber(l0) ==> length == int64(u32of(l0)))
+//@   at_call (*object).hasProperty : arg0 == thisObject && lower.index < middle && lower.name == arrayIndexToString(lower.index) && upper.name == arrayIndexToString(length - lower.index - 1) && (arg1 == lower.name || arg1 == upper.name)
+//@   at_call (*object).get : arg0 == thisObject && (arg1 == "length" || (arg1 == lower.name && lower.exists) || (arg1 == upper.name && upper.exists))
+//@   at_call (*object).put : arg0 == thisObject && arg3 && ((arg1 == lower.name && upper.exists && called(vu) && arg2 == vu && (!lower.exists ==> called(du))) || (arg1 == upper.name && lower.exists && called(vl) && arg2 == vl && (!upper.exists ==> called(dl))))
+//@   at_call (*object).delete : arg0 == thisObject && arg2 && ((arg1 == upper.name && upper.exists && !lower.exists) || (arg1 == lower.name && lower.exists && !upper.exists))
+//@   ensures called(l0)
+
+// 15.4.4.12 splice(start, deleteCount, items...): the deleted elements are read with
+// [[HasProperty]]/[[Get]] at ToString(start+k); the tail is moved down (item count < delete
+// count: from k+deleteCount to k+itemCount for k = start .., then the surplus is deleted from
+// the end) or up (item count > delete count: from k+deleteCount-1 to k+itemCount-1 for
+// k = len-deleteCount .. start+1), holes moved as holes ([[Delete]]); the items are put at
+// start, start+1, ...; length is put as len - deleteCount + itemCount.  Every [[Put]] and
+// [[Delete]] has throw = true.
+//@ func builtinArraySplice
+//@   props C08
+//@   nosafety
+//@   fold u32of, numOf
+//@   requires wfCall(call) && argsOK(call.ArgumentList) && call.runtime != nil
+//@   stable call.ArgumentList
+//@   calls (*object).get(_, "length") as l0
+//@   calls (*object).get(_, _) as g
+//@   calls (*object).hasProperty(_, _) as h whenret false
+//@   invariant@1 0 <= start && start <= length && 0 <= deleteCount && deleteCount <= length - start
+//@   invariant@2 start <= index && index <= stop && stop == length - deleteCount
+//@   invariant@3 stop + itemCount <= index && index <= length && stop == length - deleteCount
+//@   invariant@4 start <= index && index <= length - deleteCount
+//@   at_call (*object).get @0 : arg0 == thisObject && arg1 == "length"
+//@   at_call (*object).hasProperty @1 : arg0 == thisObject && arg1 == arrayIndexToString(start + index)
+//@   at_call (*object).get @1 : arg0 == thisObject && called(h) && h && arg1 == arrayIndexToString(start + index)
+//@   at_call (*object).hasProperty @2 : arg0 == thisObject && itemCount < deleteCount && arg1 == arrayIndexToString(index + deleteCount)
+//@   at_call (*object).get @2 : arg0 == thisObject && called(h) && h && arg1 == arrayIndexToString(index + deleteCount)
+//@   at_call (*object).put @2 : arg0 == thisObject && arg3 && called(h) && h && arg1 == arrayIndexToString(index + itemCount) && called(g) && arg2 == g
+//@   at_call (*object).delete @2 : arg0 == thisObject && arg2 && called(h) && !h && arg1 == arrayIndexToString(index + itemCount)
+//@   at_call (*object).delete @3 : arg0 == thisObject && arg2 && itemCount < deleteCount && arg1 == arrayIndexToString(index - 1)
+//@   at_call (*object).hasProperty @4 : arg0 == thisObject && itemCount > deleteCount && arg1 == arrayIndexToString(index + deleteCount - 1)
+//@   at_call (*object).get @4 : arg0 == thisObject && called(h) && h && arg1 == arrayIndexToString(index + deleteCount - 1)
+//@   at_call (*object).put @4 : arg0 == thisObject && arg3 && called(h) && h && arg1 == arrayIndexToString(index + itemCount - 1) && called(g) && arg2 == g
+//@   at_call (*object).delete @4 : arg0 == thisObject && arg2 && called(h) && !h && arg1 == arrayIndexToString(index + itemCount - 1)
+//@   at_call (*object).put @5 : arg0 == thisObject && arg3 && 0 <= index && index < itemCount && arg1 == arrayIndexToString(index + start) && arg2 == itemList[index]
+//@   at_call (*object).put @0 : arg0 == thisObject && arg3 && arg1 == "length"
+//@   at_call (*object).put @0 : numValIs(arg2, length + itemCount - deleteCount)
+//@   at_call (*runtime).newArrayOf : len(arg1) == int(deleteCount)
+
+// 15.4.4.14 indexOf / 15.4.4.15 lastIndexOf: only positions 0 .. len-1 are ever examined
+// (k = min(n, len-1) for lastIndexOf), each with [[HasProperty]] before [[Get]]; the result is
+// the position of the element found, as a number, or -1.
+//@ func builtinArrayIndexOf
+//@   props C08
+//@   nosafety
+//@   fold u32of, numOf
+//@   requires wfCall(call) && argsOK(call.ArgumentList) && call.runtime != nil
+//@   stable call.ArgumentList
+//@   calls (*object).hasProperty(_, _) as h whenret false
+//@   invariant@1 index >= -1 && length > 0 && length <= 4294967295
+//@   at_call (*object).hasProperty : arg0 == thisObject && 0 <= index && index < length && arg1 == arrayIndexToString(index)
+//@   at_call (*object).get @1 : arg0 == thisObject && called(h) && h && 0 <= index && index < length && arg1 == arrayIndexToString(index)
+//@   at_call strictEqualityComparison : arg0 == matchValue
+//@   ensures (result.kind == valueNumber && is(result.value, int) && result.value.(int) == -1) || (result.kind == valueNumber && is(result.value, uint32))
+//@ func builtinArrayLastIndexOf
+//@   props C08
+//@   nosafety
+//@   fold u32of, numOf
+//@   requires wfCall(call) && argsOK(call.ArgumentList) && call.runtime != nil
+//@   stable call.ArgumentList
+//@   calls (*object).hasProperty(_, _) as h whenret false
+//@   invariant@1 index >= -1 && index < length && length <= 4294967295
+//@   at_call (*object).hasProperty : arg0 == thisObject && 0 <= index && index < length && arg1 == arrayIndexToString(index)
+//@   at_call (*object).get @1 : arg0 == thisObject && called(h) && h && 0 <= index && index < length && arg1 == arrayIndexToString(index)
+//@   at_call strictEqualityComparison : arg0 == matchValue
+
+// An array built from a list of values: length = number of slots; slot k, unless it is the
+// empty marker (a hole), becomes the data property ToString(k) {writable, enumerable,
+// configurable: true}.
+//@ func (*runtime).newArrayOf
+//@   props C08
+//@   nosafety
+//@   requires rt != nil
+//@   stable valueArray
+//@   calls strconv.FormatInt(_, _) as nm whenret false
+//@   at_call (*runtime).newArray : arg1 == uint32(len(valueArray))
+//@   at_call strconv.FormatInt : arg0 == int64(index) && arg1 == 10
+//@   at_call (*object).defineProperty : arg0 == o && called(nm) && arg1 == nm && 0 <= index && index < len(valueArray) && arg2 == valueArray[index] && arg2.kind != valueEmpty && arg3 == 0o111 && !arg4
+//@   ensures result != nil
+
+// 15.4.4.10 slice: positions start .. end-1 (relative indices resolved against len) are read
+// with [[HasProperty]] then [[Get]]; the result has end - start slots.
+//@ func builtinArraySlice
+//@   props C08
+//@   nosafety
+//@   fold u32of, numOf
+//@   requires wfCall(call) && argsOK(call.ArgumentList) && call.runtime != nil
+//@   stable call.ArgumentList
+//@   calls (*object).hasProperty(_, _) as h whenret false
+//@   invariant@1 0 <= index && index < sliceLength && sliceLength == end - start
+//@   at_call (*object).hasProperty : arg0 == thisObject && 0 <= index && index < end - start && arg1 == arrayIndexToString(index + start)
+//@   at_call (*object).get @1 : arg0 == thisObject && called(h) && h && arg1 == arrayIndexToString(index + start)
+//@   at_call (*runtime).newArray : arg1 == 0 && start >= end
+//@   at_call (*runtime).newArrayOf : start < end && len(arg1) == int(end - start)
+
+// 15.4.4.5 join: elements 0 .. len-1 are read in order; undefined and null contribute the
+// empty string; the default separator is ",".
+//@ func builtinArrayJoin
+//@   props C08
+//@   nosafety
+//@   fold u32of, numOf
+//@   requires wfCall(call) && argsOK(call.ArgumentList) && call.runtime != nil
+//@   stable call.ArgumentList
+//@   at_call (*object).get @1 : arg0 == thisObject && 0 <= index && index < length && arg1 == arrayIndexToString(index)
+//@   at_call (Value).string @1 : arg0 == value && value.kind != valueUndefined && value.kind != valueNull && value.kind != valueEmpty
+//@   at_call strings.Join : len(arg0) == int(length) && arg1 == separator
+//@   invariant@1 0 <= index && index < length && len(stringList) == int(index) && length <= 4294967295
+
+// ---------------------------------------------------------------------------
+// builtin_object.go: Object.* and Object.prototype.* entry points (15.2.3, 15.2.4) (C07)
+// ---------------------------------------------------------------------------
+
+// 15.2.3.2 getPrototypeOf: TypeError unless O is an object; the [[Prototype]] or null.
+//@ func builtinObjectGetPrototypeOf
+//@   props C07
+//@   requires wfCall(call) && argOK(call, 0) && call.runtime != nil
+//@   stable call.ArgumentList
+//@   throws argOf(call, 0).kind != valueObject
+//@   ensures argOf(call, 0).kind == valueObject && is(argOf(call, 0).value, *object)
+//@   ensures argOf(call, 0).value.(*object).prototype == nil ==> result.kind == valueNull
+//@   ensures argOf(call, 0).value.(*object).prototype != nil ==> result.kind == valueObject && is(result.value, *object) && result.value.(*object) == argOf(call, 0).value.(*object).prototype
+
+// 15.2.3.6 defineProperty(O, P, Attributes): TypeError unless O is an object; the descriptor
+// is ToPropertyDescriptor(Attributes); [[DefineOwnProperty]](ToString(P), desc, true); O.
+//@ func builtinObjectDefineProperty
+//@   props C07
+//@   nosafety
+//@   requires wfCall(call) && argsOK(call.ArgumentList) && call.runtime != nil
+//@   stable call.ArgumentList
+//@   calls toPropertyDescriptor(_, _) as d
+//@   at_call (*runtime).panicTypeError : argOf(call, 0).kind != valueObject
+//@   at_call toPropertyDescriptor : argOf(call, 0).kind == valueObject
+//@   at_call (*object).defineOwnProperty : arg0 == obj && arg1 == name && called(d) && arg2 == d && arg3
+//@   calls (*object).defineOwnProperty(_, _, _, _)
+//@   ensures result == val
+
+// 15.2.3.7 defineProperties / 15.2.3.5 create: the own ENUMERABLE properties of Properties
+// are taken, each through [[Get]] and ToPropertyDescriptor, and defined with throw = true.
+//@ func builtinObjectDefineProperties
+//@   props C07
+//@   nosafety
+//@   requires wfCall(call) && argsOK(call.ArgumentList) && call.runtime != nil
+//@   stable call.ArgumentList
+//@   at_call (*runtime).panicTypeError : argOf(call, 0).kind != valueObject
+//@   at_call (*object).enumerate : arg0 == properties && !arg1
+//@   calls (*object).enumerate(_, _, _)
+//@ func builtinObjectDefineProperties$1
+//@   props C07
+//@   nosafety
+//@   requires *properties != nil && *obj != nil && call.runtime != nil
+//@   calls (*object).get(_, _) as v
+//@   calls toPropertyDescriptor(_, _) as d
+//@   at_call (*object).get : arg0 == *properties && arg1 == name
+//@   at_call toPropertyDescriptor : called(v) && arg1 == v
+//@   at_call (*object).defineOwnProperty : arg0 == *obj && arg1 == name && called(d) && arg2 == d && arg3
+//@   calls (*object).defineOwnProperty(_, _, _, _)
+//@   ensures result
+//@ func builtinObjectCreate
+//@   props C07
+//@   nosafety
+//@   requires wfCall(call) && argsOK(call.ArgumentList) && call.runtime != nil
+//@   stable call.ArgumentList
+//@   at_call (*runtime).panicTypeError : argOf(call, 0).kind != valueNull && argOf(call, 0).kind != valueObject
+//@   at_call (*runtime).newObject : argOf(call, 0).kind == valueNull || argOf(call, 0).kind == valueObject
+//@   at_call (*object).enumerate : arg0 == properties && !arg1
+//@ func builtinObjectCreate$1
+//@   props C07
+//@   nosafety
+//@   requires *properties != nil && *obj != nil && call.runtime != nil
+//@   calls (*object).get(_, _) as v
+//@   calls toPropertyDescriptor(_, _) as d
+//@   at_call (*object).get : arg0 == *properties && arg1 == name
+//@   at_call toPropertyDescriptor : called(v) && arg1 == v
+//@   at_call (*object).defineOwnProperty : arg0 == *obj && arg1 == name && called(d) && arg2 == d && arg3
+//@   calls (*object).defineOwnProperty(_, _, _, _)
+//@   ensures result
+
+// 15.2.4.5 hasOwnProperty / 15.2.4.7 propertyIsEnumerable: decided by [[GetOwnProperty]] of
+// the this object alone (never the prototype chain).
+//@ func builtinObjectPropertyIsEnumerable
+//@   props C07
+//@   nosafety
+//@   requires wfCall(call) && argsOK(call.ArgumentList) && call.runtime != nil
+//@   stable call.ArgumentList
+//@   calls (*object).getOwnProperty(_, _) as pr
+//@   at_call (*object).getOwnProperty : arg0 == thisObject && arg1 == propertyName
+//@   ensures called(pr)
+//@   ensures result.kind == valueBoolean && is(result.value, bool)
+//@   ensures result.value.(bool) <==> pr != nil && dig(pr.mode, 1) == 1
+//@ func builtinObjectHasOwnProperty
+//@   props C07
+//@   nosafety
+//@   requires wfCall(call) && argsOK(call.ArgumentList) && call.runtime != nil
+//@   stable call.ArgumentList
+//@   calls (*object).hasOwnProperty(_, _) as r
+//@   at_call (*object).hasOwnProperty : arg0 == thisObject && arg1 == propertyName
+//@   ensures called(r) && result.kind == valueBoolean && is(result.value, bool) && result.value.(bool) == r
